@@ -1072,7 +1072,7 @@ func timeSleep(c *CallCtx) (Value, bool) {
 	}
 	snap := st.progress
 	if !otherRunnable(e, st, me) {
-		if !clean {
+		if !clean && !sleeperWakeable(st, me) {
 			th.PassStart = st.progress
 			return nil, true // the pause elapses; my own pass changed something, look again
 		}
@@ -1088,6 +1088,7 @@ func timeSleep(c *CallCtx) (Value, bool) {
 	}
 	fr.Yielded = true
 	th.Sleeping = true
+	th.SleepSnap = snap
 	e.block(st, "time.Sleep (polling) at "+e.pos(e.curInstr), func(e *Engine, s *State) bool {
 		if s.progress > snap {
 			return true
@@ -1096,7 +1097,8 @@ func timeSleep(c *CallCtx) (Value, bool) {
 			return false
 		}
 		if !clean {
-			return true
+			// fairness among pollers: one that has seen progress since it fell asleep goes first
+			return !sleeperWakeable(s, me)
 		}
 		// clean poller: give the other pollers their pass first; resume when all are clean (livelock is then reported)
 		for i, t := range s.threads {
@@ -1107,6 +1109,16 @@ func timeSleep(c *CallCtx) (Value, bool) {
 		return true
 	})
 	return nil, false
+}
+
+// sleeperWakeable: some other polling thread has seen progress since it fell asleep.
+func sleeperWakeable(st *State, me int) bool {
+	for i, t := range st.threads {
+		if i != me && !t.Done && t.Sleeping && st.progress > t.SleepSnap {
+			return true
+		}
+	}
+	return false
 }
 
 // otherRunnable reports whether some thread other than me (sleepers excluded) can run.
